@@ -44,13 +44,14 @@ Section Lower.
         if negb (is_ident x) || known funcs x then None else
         match lexpr r with Some a => Some [NAction ([x], [[a]])] | None => None end
       | PCode [SExpr (JUn UInc _ (JId x))] false _ =>
-        if negb (is_ident x) || known funcs x then None else
+        if negb (is_ident x) || known funcs x || negb (goodb (JId x)) then None else
         Some [NAction ([x], [[AIdent (B "__op__inc"); AVar x []]])]
       | PCode [SVar [JVar x (Some i)]] false _ =>
         if negb (is_ident x) then None else
         match lexpr i with Some a => Some [NAction ([x], [[a]])] | None => None end
       | PCode [SExpr e] esc _ =>
-        if printable e then
+        (* escaped buffered code only: unescaped output of an undefined value is the listed deviation F-C11-c *)
+        if printable e && esc then
           match lexpr e with Some a => Some [NAction ([], [a] :: esc_cmds (negb esc))] | None => None end
         else None
       | PCond test cons_ alt =>
